@@ -31,7 +31,7 @@ func init() {
 			"(file images cut inside a seeded write(2) of a seeded operation); a clean batch is evidence, not proof",
 		LevelNote: "real files on the host file system, real blockdb/blockstore/block-entity code in a child process; crash images are manufactured from recorded file lengths and " +
 			"the order of writes read off the code (append-only files: every prefix is a possible process-crash image), not by killing a process; power-loss images are explored report-only; " +
-			"a hang is declared from CPU time consumed by the operation (0.5 s of CPU for reads that cost microseconds), not from wall time",
+			"a hang is declared from user-mode CPU time consumed by the operation (0.5 s for point reads that cost microseconds, 10 s for bulk operations), not from wall time",
 		Technique: "deterministic simulation: seeded plans, real code on real files, manufactured crash images, CPU-budget deadline per operation, model-based oracle (map of written records / projections of written blocks)",
 		DesignRef: "3.3, 6/C26", Regime: "single-threaded event loop (one request at a time to the SUT process); the block store's asynchronous cache writer is awaited, not scheduled",
 		Components: sim.Components{
@@ -48,7 +48,7 @@ func init() {
 			"each block-DB path is written once (Create, WriteData*, Save) as the package documents an immutable database; re-creating a DB over an existing path is not explored",
 			"keys have exactly the DB's key length; lookups also use other lengths",
 			"a key written twice may read back as either record written under it",
-			"a read that has consumed 0.5 s of CPU without returning is a hang (normal cost is microseconds); a read that neither returns nor burns CPU for 90 s of wall time is reported as blocked",
+			"a point read / open that has consumed 0.5 s of user-mode CPU (or 4 s of user+kernel CPU) without returning is a hang (normal cost is microseconds to a few ms); bulk operations (ReadAll, block read/write) get 10 s; an operation that neither returns nor burns CPU for 90 s of wall time is reported as blocked",
 		},
 	})
 }
@@ -821,8 +821,8 @@ func (w *world) dbGet(st sim.Step) {
 	res := o
 	switch {
 	case lost(r) || o == "panic":
-		w.viol("read-deadline", pre+o+w.klTag(), fmt.Sprintf("Read of a key that is %s (%s, %d keys stored, key length %d) did not return: %s (cpu %d ms) %s",
-			strings.TrimSuffix(cls, "-key"), getKinds[kind], len(sorted), w.keylen, o, r.CPUms, r.Panic))
+		w.viol("read-deadline", pre+o+w.klTag(), fmt.Sprintf("Read of a key that is %s (%s, %d keys stored, key length %d) did not return: %s (user cpu %d ms, kernel %d ms) %s",
+			strings.TrimSuffix(cls, "-key"), getKinds[kind], len(sorted), w.keylen, o, r.CPUms, r.SysMs, r.Panic))
 	case kind == 0:
 		switch {
 		case o != "ok":
